@@ -15,8 +15,11 @@ def _c19_post(ev):
 def _c14_after(prop, tier, rc):
     return _c07_after(prop, tier, rc, gdt=True)
 
+def _c06_after(prop, tier, rc):
+    return _c07_after(prop, tier, rc, align=True)
 
-def _c07_after(prop, tier, rc, gdt=False):
+
+def _c07_after(prop, tier, rc, gdt=False, align=False):
     """Engine M: release-profile semantics of the operators (C07) / state at a panic of GDT append (C14),
     from MIR (tools/mir2smt.py)."""
     import json, os, shutil, subprocess, sys, time
@@ -29,7 +32,7 @@ def _c07_after(prop, tier, rc, gdt=False):
         subprocess.check_call(["rsync", "-a", "--exclude", "/target", "--exclude", "/.git", "--exclude", "/testing", os.environ.get("VERIF_REPO", "/repo") + "/", scratch + "/"])
         out = os.path.join(scratch, "m.json")
         menv = dict(os.environ, VERIF_M_MAXES=("2,3,8,16,64" if tier == "thorough" else "2,3,8"))
-        p = subprocess.run(["python3-vt", os.path.join(verif, "tools", "mir2smt.py"), scratch, out] + (["--gdt"] if gdt else []), capture_output=True, text=True, timeout=3000, env=menv)
+        p = subprocess.run(["python3-vt", os.path.join(verif, "tools", "mir2smt.py"), scratch, out] + (["--gdt"] if gdt else []) + (["--align"] if align else []), capture_output=True, text=True, timeout=3000, env=menv)
         if p.returncode != 0 or not os.path.exists(out):
             print(f"INCONCLUSIVE property={prop}: engine M failed: {p.stderr[-800:]}", flush=True)
             return rc if rc == 1 else 2
@@ -39,32 +42,47 @@ def _c07_after(prop, tier, rc, gdt=False):
         violated = [r for r in res if r["verdict"] == "violated"]
         rep = {}
         if violated:
-            p2 = subprocess.run(["python3-vt", "-c", "import sys, json; sys.path.insert(0, %r); import mir2smt; d = json.load(open(%r)); print(json.dumps(mir2smt.%s(%r, d['results'])))" % (os.path.join(verif, "tools"), out, "replay_gdt" if gdt else "replay_release", scratch)],
+            p2 = subprocess.run(["python3-vt", "-c", "import sys, json; sys.path.insert(0, %r); import mir2smt; d = json.load(open(%r)); print(json.dumps(mir2smt.%s(%r, d['results'])))" % (os.path.join(verif, "tools"), out, "replay_gdt" if gdt else ("replay_align" if align else "replay_release"), scratch)],
                                 capture_output=True, text=True, timeout=3000)
             try:
                 rep = json.loads(p2.stdout.strip().splitlines()[-1])
             except Exception:
                 rep = {}
         bad_selftest = [t for t in data["selftest"] if not t["ok"]]
-        incon = [r for r in res if r["verdict"] in ("unsupported", "inconclusive")]
+        # `unsupported` = the encoder does not know a MIR construct of the current tree (e.g. after a refactor): those
+        # obligations are not explored (reported, listed in the evidence, no verdict); `inconclusive` = the solvers
+        # disagree / time out or a counterexample does not replay, i.e. the machinery itself is in doubt
+        unsupported = [r for r in res if r["verdict"] == "unsupported"]
+        incon = [r for r in res if r["verdict"] == "inconclusive"]
         nviol = 0
         os.makedirs(repdir, exist_ok=True)
         for r in violated:
             rr = rep.get(r["obligation"], {})
             name = "M_" + "".join(c if c.isalnum() else "_" for c in r["obligation"])
             path = os.path.join(repdir, name + ".txt")
-            open(path, "w").write(f"engine M counterexample (release profile, overflow checks off)\nobligation: {r['obligation']} is exact-or-panic\n"
-                                  f"self = {r['a']:#x}, rhs = {r['b']:#x}\nMIR model returns {r['returns']:#x}\nnative release build returned: {rr.get('returned')}\n"
-                                  f"replay: tools/mir2smt.py replay_release() builds a binary against the real crate with `cargo run --release`\n")
+            if gdt:
+                open(path, "w").write(f"engine M counterexample\nobligation: {r['obligation']}\nMAX = {r.get('MAX')}, len = {r.get('len')}, descriptor = ({r.get('lo', 0):#x}, {r.get('hi', 0):#x}), system = {r.get('system')}\n"
+                                      f"slots = {[hex(x) for x in r.get('slots', [])]}\nnative run: {rr}\nreplay: tools/mir2smt.py replay_gdt() (catch_unwind around append on the real crate)\n")
+            else:
+                ret = r.get("returns")
+                ret_s = ret if isinstance(ret, str) else (f"{ret:#x}" if ret is not None else "PANIC")
+                open(path, "w").write(f"engine M counterexample (release profile, overflow checks off)\nobligation: {r['obligation']}\n"
+                                      f"self / addr = {r['a']:#x}, rhs / align = {r['b']:#x}\nMIR model returns {ret_s}\nnative release build returned: {rr.get('returned')}\n"
+                                      f"replay: tools/mir2smt.py {'replay_align' if align else 'replay_release'}() builds a binary against the real crate with `cargo run --release`\n")
             if rr.get("reproduced"):
                 nviol += 1
                 print(f"VIOLATION property={prop} replay={path}", flush=True)
-                print(f"  engine=M obligation={r['obligation']} self={r['a']:#x} rhs={r['b']:#x} release build returns {rr.get('returned')} (wrapped, no panic)", flush=True)
+                if gdt:
+                    print(f"  engine=M obligation={r['obligation']} len={r.get('len')} native: {rr}", flush=True)
+                else:
+                    print(f"  engine=M obligation={r['obligation']} a={r['a']:#x} b={r['b']:#x} release build returns {rr.get('returned')}", flush=True)
             else:
                 print(f"UNCONFIRMED counterexample property={prop} engine=M obligation={r['obligation']} ({rr})", flush=True)
                 incon.append(r)
         for r in incon:
             print(f"INCONCLUSIVE property={prop}: engine M {r['obligation']}: {r.get('why', r['verdict'])}", flush=True)
+        for r in unsupported:
+            print(f"NOT-EXPLORED property={prop}: engine M cannot encode {r['obligation']}: {r.get('why')}", flush=True)
         for t in bad_selftest:
             print(f"INCONCLUSIVE property={prop}: engine M self-test failed on {t}", flush=True)
         evp = os.path.join(evdir, f"{prop}.json")
@@ -72,9 +90,11 @@ def _c07_after(prop, tier, rc, gdt=False):
             ev = json.load(open(evp))
             cov = ev["coverage"]
             cov["engine_M"] = dict(
-                what=("rustc MIR of GlobalDescriptorTable::append/push symbolically executed path by path from an arbitrary valid table state (MAX in {2,3,8}); obligation: on every panicking path the table state is the initial state, and append panics exactly when the descriptor does not fit; decided by z3 and cvc5" if gdt else
+                what=("rustc MIR (-C overflow-checks=off -C debug-assertions=off) of align_down / align_up / align_down_u64 / is_aligned_u64, symbolically executed path by path into QF_BV; obligation: exact rounded value for power-of-two alignments, panic exactly for non-power-of-two alignments or overflow; decided by z3 and cvc5" if align else
+                      "rustc MIR of GlobalDescriptorTable::append/push symbolically executed path by path from an arbitrary valid table state (MAX in {2,3,8}); obligation: on every panicking path the table state is the initial state, and append panics exactly when the descriptor does not fit; decided by z3 and cvc5" if gdt else
                       "rustc MIR (-C overflow-checks=off -C debug-assertions=off) of the operator functions, symbolically executed path by path into QF_BV; negated exact-or-panic obligation decided by z3 and cvc5"),
                 obligations=len(res), holds=sum(r["verdict"] == "holds" for r in res), violated=len(violated), inconclusive=len(incon),
+                not_explored=[dict(obligation=r["obligation"], why=r.get("why")) for r in unsupported],
                 solvers="z3 %s + cvc5 (must agree)" % __import__("subprocess").run(["python3-vt", "-c", "import z3;print(z3.get_version_string())"], capture_output=True, text=True).stdout.strip(),
                 solver_time_s=round(sum(r.get("solver_s", 0) for r in res), 2), wall_s=round(time.time() - t0, 1),
                 functions_encoded=sorted({f for r in res for f in r.get("functions", [])}),
@@ -89,7 +109,7 @@ def _c07_after(prop, tier, rc, gdt=False):
             ev["violations"] = ev.get("violations", 0) + nviol
             ev["wall_s"] = round(ev["wall_s"] + time.time() - t0, 2)
             json.dump(ev, open(evp, "w"), indent=1)
-        print(f"{prop} {tier}: engine M {len(res)} obligations, {sum(r['verdict']=='holds' for r in res)} hold, {nviol} violations, {len(incon)} inconclusive, {time.time()-t0:.0f}s", flush=True)
+        print(f"{prop} {tier}: engine M {len(res)} obligations, {sum(r['verdict']=='holds' for r in res)} hold, {nviol} violations, {len(incon)} inconclusive, {len(unsupported)} not explored, {time.time()-t0:.0f}s", flush=True)
         if nviol:
             return 1
         if (incon or bad_selftest) and rc == 0:
@@ -132,7 +152,7 @@ PROPS = {
     "C09": PT("C09", "c09", bounds="as C01; frame rule on 24 witness slots per instance (every written slot, neighbours, slots 0/511 of free frames)"),
     "C04": K("c04", bounds="no loop; all canonical addresses, all index tuples in 0..512^4, all u16"),
     "C05": K("c05", bounds="no loop; all canonical addresses/pages, all usize counts"),
-    "C06": K("c06", bounds="no loop; all u64 addresses x all 64 power-of-two alignments (k<=47 for VirtAddr)"),
+    "C06": K("c06", after=_c06_after, engine="K+M", technique="solver-based: Kani/CBMC bounded model checking + own MIR->SMT encoder (z3/cvc5) for the release-profile semantics of the alignment helpers", bounds="no loop; all u64 addresses x all 64 power-of-two alignments (k<=47 for VirtAddr)"),
     "C08": K("c08", bounds="all raw entries / aligned addresses / flag sets; 3-step setter programs; all 512 slots (unwind 514)"),
     "C12": K("c12", extra=["-Z", "stubbing"], bounds="all 256 vectors, all u8 bound pairs of 15 range forms, all canonical handler addresses, 3-step option-setter programs (unwind 4)",
              stubs=["S-addr: VirtAddr::new -> new_unsafe in c12_load_hands_cpu_own_address only (CBMC object addresses are never canonical)"],
